@@ -24,7 +24,8 @@ ENV = dict(os.environ, CARGO_NET_OFFLINE='true')
 ENV.pop('RUSTFLAGS', None)
 NOVEC = '-C no-vectorize-slp -C no-vectorize-loops'
 CBMC_BASE = ['--no-standard-checks', '--bounds-check', '--pointer-check', '--unwinding-assertions',
-             '--unwindset', 'vf_havoc_c.0:1100', '--json-ui']
+             '--unwindset', 'vf_havoc_c.0:1100', '--sat-solver', 'cadical', '--json-ui']
+SLICE = ['--slice-formula']   # cone-of-influence reduction; not used for trace runs (the replay log must stay in the formula)
 JOBS = int(os.environ.get('VERIF_JOBS', '16'))
 
 
@@ -110,8 +111,17 @@ def _limits(mem_gb):
     return f
 
 
-def run_cbmc(cfile, c_entry, unwind, defs=(), extra=(), timeout=300, mem_gb=8):
-    cmd = ['cbmc', cfile, os.path.join(HERE, 'prelude.c'), '--function', c_entry, '--unwind', str(unwind)] + CBMC_BASE
+def run_cbmc(cfile, c_entry, unwind, defs=(), extra=(), timeout=300, mem_gb=8, slice_=True, checks=True):
+    base = list(CBMC_BASE)
+    if not checks:
+        base = [x for x in base if x not in ('--bounds-check', '--pointer-check')]
+    extra = list(extra)
+    if '--unwindset' in extra:   # merge with the havoc loop bound (cbmc takes one --unwindset)
+        i = extra.index('--unwindset')
+        j = base.index('--unwindset')
+        base[j + 1] = base[j + 1] + ',' + extra[i + 1]
+        del extra[i:i + 2]
+    cmd = ['cbmc', cfile, os.path.join(HERE, 'prelude.c'), '--function', c_entry, '--unwind', str(unwind)] + base + (SLICE if slice_ else [])
     for d in defs:
         cmd.append('-D' + d)
     cmd += list(extra)
@@ -251,8 +261,39 @@ def solve(res, caps):
     t0 = time.time()
     info, cfile, unwind = res['info'], res['cfile'], res['unwind']
     tries = []
+    loopb = {}   # per-loop bounds found by deepening: "function.loopnr" -> bound
+
+    def uset():
+        return ['--unwindset', ','.join('%s:%d' % kv for kv in sorted(loopb.items()))] if loopb else []
+
+    # phase 1: per-loop iterative deepening with the unwinding assertions only (cheap: no other property is
+    # encoded).  Only loops whose unwinding assertion fails are deepened, so inner library loops keep the small bound.
+    rounds = 0
     while True:
-        r = run_cbmc(cfile, info['c_entry'], unwind, defs=['VF_REACH'], timeout=caps['timeout'], mem_gb=caps['mem_gb'])
+        r = run_cbmc(cfile, info['c_entry'], unwind, extra=['--no-assertions'] + uset(), timeout=caps['timeout'],
+                     mem_gb=caps['mem_gb'], checks=False)
+        tries.append(('deepen', dict(loopb), r['status'], round(r['secs'], 2)))
+        if r['status'] != 'done':
+            break   # let the main run report the problem
+        bad = [p['property'] for p in r['results'] if p['status'] != 'SUCCESS' and classify(p['description'])[0] == 'UNWIND']
+        if not bad:
+            break
+        rounds += 1
+        grew = False
+        for prop in bad:
+            m = re.fullmatch(r'(.*)\.unwind\.(\d+)', prop)
+            if not m:
+                continue
+            key = '%s.%s' % (m.group(1), m.group(2))
+            cur = loopb.get(key, unwind)
+            if cur < caps['max_unwind']:
+                loopb[key] = min(caps['max_unwind'], cur + (2 if cur < 12 else 6))
+                grew = True
+        if not grew or rounds > 12:
+            break
+    res['loop_bounds'] = dict(loopb)
+    while True:
+        r = run_cbmc(cfile, info['c_entry'], unwind, defs=['VF_REACH'], extra=uset(), timeout=caps['timeout'], mem_gb=caps['mem_gb'])
         tries.append((unwind, r['status'], round(r['secs'], 2)))
         res['tries'] = tries
         res['secs'] = time.time() - t0
@@ -267,21 +308,19 @@ def solve(res, caps):
             return res
         props = [(p['property'], p['description'], p['status']) + classify(p['description']) for p in r['results']]
         unw_fail = [p for p in props if p[3] == 'UNWIND' and p[2] != 'SUCCESS']
-        if unw_fail and unwind < caps['max_unwind']:
-            unwind += 2 if unwind < 12 else 8
-            continue
         break
+    res['unwind_max'] = max([unwind] + list(loopb.values()))
     fails = [p for p in props if p[2] != 'SUCCESS' and p[3] not in ('REACH', 'UNWIND')]
     reach_ok = sorted({p[4] for p in props if p[3] == 'REACH' and p[2] == 'FAILURE'})
     reach_all = sorted({p[4] for p in props if p[3] == 'REACH'})
     vacuous = [i for i in reach_all if i not in reach_ok]
-    res.update({'unwind': unwind, 'solver_secs': r['secs'], 'stats': r['stats'],
+    res.update({'unwind': res['unwind_max'], 'base_unwind': unwind, 'solver_secs': r['secs'], 'stats': r['stats'],
                 'n_props': len(props), 'n_checked': len([p for p in props if p[3] != 'REACH']),
                 'reach_ids': reach_all, 'reached': reach_ok, 'vacuous': vacuous,
                 'fails': [{'prop': p[0], 'desc': p[1], 'cls': p[3], 'id': p[4]} for p in fails]})
     if unw_fail:
         res['verdict'] = 'inconclusive'
-        res['why'] = 'unwinding assertion still failing at unwind %d (cap %d)' % (unwind, caps['max_unwind'])
+        res['why'] = 'unwinding assertion still failing (base unwind %d, per-loop %s, cap %d)' % (unwind, loopb, caps['max_unwind'])
     elif vacuous:
         # decided before looking at failures: a truncated harness proves nothing
         res['verdict'] = 'cex' if fails else 'inconclusive'
@@ -298,8 +337,10 @@ def solve(res, caps):
 
 def get_trace(res, prop, caps):
     """second solver call restricted to one failing property, with trace; returns the replay vector"""
-    r = run_cbmc(res['cfile'], res['info']['c_entry'], res['unwind'], defs=['VF_REACH'], extra=['--trace', '--property', prop],
-                 timeout=caps['timeout'], mem_gb=caps['mem_gb'])
+    lb = res.get('loop_bounds') or {}
+    us = ['--unwindset', ','.join('%s:%d' % kv for kv in sorted(lb.items()))] if lb else []
+    r = run_cbmc(res['cfile'], res['info']['c_entry'], res.get('base_unwind', res['unwind']), defs=['VF_REACH'], extra=['--trace', '--property', prop] + us,
+                 timeout=caps['timeout'], mem_gb=caps['mem_gb'], slice_=False)
     if r['status'] != 'done':
         return None
     for p in r['results']:
